@@ -18,7 +18,9 @@ Inductive credkind :=
 | KLoginForm      (* session cookie minted by POST /api/v0/login, name and password in the form *)
 | KLoginBasic     (* session cookie minted by POST /api/v0/login, name and password in an Authorization: Basic header *)
 | KBasic          (* Authorization: Basic on the certificate request itself *)
-| KCert.          (* client certificate issued by this keymaster: the common name is the name *)
+| KCert           (* client certificate issued by this keymaster: the common name is the name *)
+| KIpCert.        (* IP-restricted automation certificate (role CA) presented from inside its netblocks: the common
+                     name is the name, if it is byte for byte a configured automation user *)
 
 (* config.go defaultOktaUsernameFilterRegexp "@.*" applied with ReplaceAll(.., nil): every '@' and what
    follows it up to the end of the line goes ('.' does not match a line feed) *)
@@ -40,6 +42,8 @@ Section Ident.
 Variable okta : option (bs -> bs).        (* oktaUsernameFilterRE, when the Okta backend is configured *)
 Variable disable : bool.                  (* disable_username_normalization *)
 Variable backend : bs -> bs -> bool.      (* the password backend's verdict on (account, password) *)
+Variable automation : bs -> bool.         (* isAutomationUser: the name is listed in automation_users (string equality)
+                                             or a member of an automation group *)
 
 (* what a password path did: the account the backend was asked about (None: it was not asked), and
    the identity handed on (None: refused) *)
@@ -67,12 +71,17 @@ Definition basic_branch (typed pw : bs) : pwres :=
 Definition cert_branch (cn : bs) : pwres :=
   {| p_asked := None; p_identity := if is_nil cn then None else Some cn |}.
 
+(* getUsernameIfIPRestricted: the common name, if isAutomationUser says so (else the 403) *)
+Definition ip_cert_branch (cn : bs) : pwres :=
+  {| p_asked := None; p_identity := if is_nil cn then None else if automation cn then Some cn else None |}.
+
 Definition cred_path (k : credkind) (typed pw : bs) : pwres :=
   match k with
   | KLoginForm => login_handler true typed pw
   | KLoginBasic => login_handler false typed pw
   | KBasic => basic_branch typed pw
   | KCert => cert_branch typed
+  | KIpCert => ip_cert_branch typed
   end.
 
 (* the identity checkAuth returns for a request authenticated this way *)
@@ -84,7 +93,7 @@ Definition account_of (k : credkind) (typed : bs) : bs :=
   match k with
   | KLoginForm => normalise okta disable (strip_crlf typed)
   | KLoginBasic | KBasic => normalise okta disable typed
-  | KCert => typed
+  | KCert | KIpCert => typed
   end.
 
 (* ---- the certificate request authenticated this way, on a server st0 / request skeleton q0 (method,
@@ -108,6 +117,12 @@ Definition user_cert : tlsinfo :=
      c_not_before := (-50)%Z; c_ip_error := false; c_ip_valid := false; c_automation := false;
      c_revoked := false |}.
 
+(* an IP-restricted certificate of the role CA, presented from inside its netblocks, not revoked *)
+Definition ip_cert (autom : bool) : tlsinfo :=
+  {| c_chain2 := true; c_issuer := RoleCA; c_issuer_key_trusted := true; c_cn := 1; c_denied := false;
+     c_not_before := (-50)%Z; c_ip_error := false; c_ip_valid := true; c_automation := autom;
+     c_revoked := false |}.
+
 Definition ident_server (st0 : server) (k : credkind) (typed pw : bs) : server :=
   with_name st0 (fun _ => match admitted k typed pw with Some id => id | None => [] end).
 
@@ -122,6 +137,7 @@ Definition ident_request (st0 : server) (q0 : certreq) (now : Z) (k : credkind) 
       with_auth q0 None None
         (Some {| b_user := 1; b_ok := match admitted k typed pw with Some _ => true | None => false end; b_err := false |})
   | KCert => with_auth q0 (Some user_cert) None None
+  | KIpCert => with_auth q0 (Some (ip_cert (automation typed))) None None
   end.
 
 Variable expand : bs -> bs -> option bs.
@@ -136,4 +152,7 @@ Definition basic_branch_typed (okta : option (bs -> bs)) (disable : bool) (backe
   {| p_asked := Some account; p_identity := if backend account pw then Some typed else None |}.
 
 Definition kind_of_index (i : N) : credkind :=
-  if i =? 1 then KLoginForm else if i =? 2 then KLoginBasic else if i =? 3 then KBasic else KCert.
+  if i =? 1 then KLoginForm else if i =? 2 then KLoginBasic else if i =? 3 then KBasic
+  else if i =? 5 then KIpCert else KCert.
+Definition password_kind (k : credkind) : bool :=
+  match k with KLoginForm | KLoginBasic | KBasic => true | _ => false end.
